@@ -438,7 +438,9 @@ fn execute(sc: &Value) -> RunReport {
         let reopened = open(&dir_img, &flush).await;
         let peak = win.peak_growth();
         let biggest = win.biggest();
-        ev!("reopen files={} bytes={total} peak_alloc={} biggest={}", files.len(), peak / 1024 * 1024, biggest / 1024 * 1024);
+        // measured allocation figures stay out of the trace (they are judged below): under CPU load they
+        // differed by a KiB between two processes once in a while, which the determinism audit reports
+        ev!("reopen files={} bytes={total}", files.len());
         // slack constant: decoders pre-allocate up to a fixed cap for a declared element count
         // (serde's cautious size hint: 1 MiB worth of elements, ~1.6 MB as a hash table)
         if peak > 16 * total + (3 << 20) {
@@ -458,6 +460,22 @@ fn execute(sc: &Value) -> RunReport {
             let set: BTreeSet<String> = ctx.faults.keys().cloned().collect();
             set.into_iter().collect::<Vec<_>>().join("+")
         };
+        // ---- a second restart of the same directory (recovery may have repaired files): the statement
+        //      holds for every recovery, so the same clauses are evaluated on what the second one returns
+        let mut passes = vec![(rec, stats)];
+        match open(&dir_img, &flush).await {
+            Ok(m2) => {
+                let rec2 = to_map(m2.get_all().unwrap_or_default());
+                let stats2 = m2.recovery_stats().ok();
+                drop(m2);
+                ctx.probe("second_restart");
+                if rec2 != passes[0].0 { ctx.probe("second_restart_state_differs_from_first"); }
+                passes.push((rec2, stats2));
+            }
+            Err(e) => ctx.violate("C07.recover.did_not_complete", "second_restart", format!("reopening the directory a second time returned an error: {e}")),
+        }
+        for (pass, (rec, stats)) in passes.into_iter().enumerate() {
+        let shape = if pass == 0 { shape.clone() } else { format!("{shape}:second_restart") };
 
         // ---- provenance: every recovered value was written for that key in this store
         for (k, v) in &rec {
@@ -472,7 +490,7 @@ fn execute(sc: &Value) -> RunReport {
             }
         }
         // ---- report: damage that recovery reads must show in the statistics
-        if must_report {
+        if must_report && pass == 0 {
             let reported = stats.as_ref().map(|s| !s.corruption_events.is_empty() || s.entries_failed > 0 || s.data_loss_detected).unwrap_or(false);
             if !reported {
                 ctx.violate("C07.report.damage_not_reported", shape.clone(), "bytes that recovery reads were damaged but corruption_events is empty and entries_failed is 0".to_string());
@@ -503,6 +521,7 @@ fn execute(sc: &Value) -> RunReport {
                     logs.sort_by(|a, b| ((a.as_str() == "state.wal"), a.as_str()).cmp(&((b.as_str() == "state.wal"), b.as_str())));
                     let mut safe_tx: BTreeSet<u64> = BTreeSet::new();
                     let mut later_tx: BTreeSet<u64> = BTreeSet::new();
+                    let mut other_file_tx: BTreeSet<u64> = BTreeSet::new();
                     let mut past = false;
                     for l in logs {
                         let b = &orig[l];
@@ -512,9 +531,31 @@ fn execute(sc: &Value) -> RunReport {
                             let end = pos + sz;
                             if l == fname && end > *off { past = true; }
                             if past { later_tx.insert(e.transaction_id); } else { safe_tx.insert(e.transaction_id); }
+                            if past && l != fname { other_file_tx.insert(e.transaction_id); }
                             pos = end;
                         }
                         if l == fname { past = true; }
+                    }
+                    // Damage that only cuts or extends the END of one log (truncation, appended bytes) leaves the framing
+                    // of every other log intact: operations whose records all lie in logs replayed later are honoured too.
+                    let tail_damage_only = ctx.faults.keys().all(|k| k == "truncate" || k == "append_garbage");
+                    if tail_damage_only {
+                        let uncertain_ops: BTreeSet<usize> = later_tx.iter().filter(|t| !other_file_tx.contains(t)).filter_map(|t| tx_to_op.get(t).copied()).collect();
+                        let mut expect = Map::new();
+                        let mut uncertain_keys: BTreeSet<String> = BTreeSet::new();
+                        for (idx, eff) in &effects {
+                            if uncertain_ops.contains(idx) { for (k, _) in eff { uncertain_keys.insert(k.clone()); } continue; }
+                            for (k, v) in eff { match v { Some(v) => { expect.insert(k.clone(), v.clone()); } None => { expect.remove(k); } } }
+                        }
+                        ctx.probe("other_logs_compared");
+                        let all_keys: BTreeSet<String> = expect.keys().chain(rec.keys()).cloned().collect();
+                        for k in all_keys {
+                            if uncertain_keys.contains(&k) { continue; }
+                            if rec.get(&k) != expect.get(&k) {
+                                ctx.violate("C07.framing.records_in_other_logs_not_honoured", shape.clone(), format!("key {k}: only the end of {fname} was damaged; the records of the other logs give {:?}, recovered {:?}", expect.get(&k), rec.get(&k)));
+                                break;
+                            }
+                        }
                     }
                     let safe_ops: BTreeSet<usize> = safe_tx.iter().filter(|t| !later_tx.contains(t)).filter_map(|t| tx_to_op.get(t).copied()).collect();
                     let later_ops: BTreeSet<usize> = later_tx.iter().filter_map(|t| tx_to_op.get(t).copied()).collect();
@@ -538,12 +579,13 @@ fn execute(sc: &Value) -> RunReport {
                 }
             }
         }
+        }
         let _ = model;
     });
     drop(rt);
     verif_hooks::set_knob("wal_max_entries", None);
     verif_hooks::clear_wall();
-    for k in ["precise_compared", "prefix_compared"] {
+    for k in ["precise_compared", "prefix_compared", "second_restart", "other_logs_compared"] {
         ctx.probes.entry(k.to_string()).or_insert(0);
     }
     drop(scratch);
